@@ -1251,12 +1251,14 @@ def parse_input_line(line, types):
             out.append(v)
             continue
         v = numeral_value(f)
-        if v is None:
+        if v is None or v != v or abs(v) == float('inf'):
             return None
         if t == '!':
             try:
                 v = f32(v)
             except OverflowError:
+                return None
+            if abs(v) == float('inf'):
                 return None
         out.append(v)
     return out
